@@ -111,7 +111,7 @@ class Hub:
             self.finished[c] = True
             self.parked[c].set()
 
-    def run_forced(self, fns, schedule, timeout=60):
+    def run_forced(self, fns, schedule, timeout=900):
         n = len(fns)
         for c in range(n):
             self.parked[c], self.go[c], self.finished[c] = threading.Event(), threading.Semaphore(0), False
@@ -134,7 +134,7 @@ class Hub:
         for t in ths: t.join(1 if stuck else timeout)
         return {'stuck': stuck, 'outcome': dict(self.outcome), 'log': list(self.log)}
 
-    def run_solo(self, fn, timeout=60):
+    def run_solo(self, fn, timeout=900):
         self.reset()
         self.parked[0], self.go[0], self.finished[0] = threading.Event(), threading.Semaphore(0), False
         t = threading.Thread(target=self._thread, args=(0, fn), daemon=True)
@@ -237,6 +237,11 @@ def encode(log, ncalls, extra_vars, shared_codes):
 
     def code(var, value, c=None, writing=False):
         if var == 'virtual_counter' and isinstance(value, int): return value
+        if var == 'parser_state':
+            # the hook reports a label; every parse() produces a new parse state: name it by (call, n-th parse)
+            if not writing: return 0
+            n = nwrites.get((c, var), 0); nwrites[(c, var)] = n + 1
+            return 1000 + 100 * c + n
         if value == init.get(var, None) and (var != 'viral_registry' or not writing): return 0
         if var == 'viral_registry':
             if writing:
